@@ -2,6 +2,7 @@ package props
 
 import (
 	"fmt"
+	"io"
 	"strings"
 	"testing"
 	"time"
@@ -33,12 +34,15 @@ type c17Case struct {
 	// SendMail: the client conversation uses Client.SendMail (one call for
 	// envelope and message) instead of Mail, Rcpt, Data
 	SendMail bool `json:"sendmail,omitempty"`
+	// LMTP: server and client speak LMTP (envelope callbacks only: the final
+	// replies of an LMTP transfer carry a recipient prefix, C13's subject)
+	LMTP bool `json:"lmtp,omitempty"`
 }
 
 const c17Msg = "hello\r\n" // the judged message (DATA: before the end marker)
 
 func c17Cfg(c c17Case) harness.Config {
-	cfg := harness.Config{}
+	cfg := harness.Config{LMTP: c.LMTP && c.Source != "Data"}
 	switch c.Limit {
 	case "exact":
 		cfg.MaxMessageBytes = int64(len(c17Msg))
@@ -174,6 +178,9 @@ func c17Classify(c c17Case) Verdict {
 	if c.Helo && c.Via == "wire" {
 		v.Classes = append(v.Classes, "greeted_with_helo")
 	}
+	if c.LMTP && c.Source != "Data" {
+		v.Classes = append(v.Classes, "lmtp")
+	}
 	if c.SendMail && c.Via == "client" && c.Source != "NewSession" {
 		v.Classes = append(v.Classes, "through_client_sendmail")
 	}
@@ -191,7 +198,9 @@ func c17RunWire(c c17Case) Verdict {
 	}
 	w.Recv()
 	var cv conv
-	if c.Helo {
+	if c.LMTP && c.Source != "Data" {
+		cv.cmd("LHLO cli")
+	} else if c.Helo {
 		cv.cmd("HELO cli")
 	} else {
 		cv.cmd("EHLO cli")
@@ -328,7 +337,8 @@ func c17RunClient(c c17Case) Verdict {
 	r := harness.NewRig(c17Cfg(c), c17Script(c))
 	var got error
 	reached := false
-	ok := withClient(r, false, func(cl *smtp.Client, w *harness.Wire) {
+	lmtp := c.LMTP && c.Source != "Data"
+	ok := withClient(r, lmtp, func(cl *smtp.Client, w *harness.Wire) {
 		if err := cl.Hello("cli"); err != nil {
 			if c.Source == "NewSession" {
 				got, reached = err, true
@@ -343,7 +353,13 @@ func c17RunClient(c c17Case) Verdict {
 			if cl.Mail("p@x", nil) != nil || cl.Rcpt("q@x", nil) != nil {
 				return
 			}
-			pw, err := cl.Data()
+			var pw io.WriteCloser
+			var err error
+			if lmtp {
+				pw, err = cl.LMTPData(func(string, *smtp.SMTPError) {})
+			} else {
+				pw, err = cl.Data()
+			}
 			if err != nil {
 				return
 			}
@@ -498,6 +514,7 @@ func TestC17(t *testing.T) {
 			Via: rapid.SampledFrom([]string{"wire", "client"}).Draw(rt, "via"), BDAT: rapid.Bool().Draw(rt, "bdat"),
 			Limit: rapid.SampledFrom([]string{"", "", "exact", "above"}).Draw(rt, "limit"),
 			Prior: rapid.SampledFrom([]string{"", "", "", "bdat-failed-chunk", "bdat-rset", "bdat-ok", "data-refused"}).Draw(rt, "prior"),
-			Helo:  rapid.IntRange(0, 3).Draw(rt, "helo") == 0, SendMail: rapid.IntRange(0, 2).Draw(rt, "sendmail") == 0}
+			Helo:  rapid.IntRange(0, 3).Draw(rt, "helo") == 0, SendMail: rapid.IntRange(0, 2).Draw(rt, "sendmail") == 0,
+			LMTP: rapid.IntRange(0, 3).Draw(rt, "lmtp") == 0}
 	})
 }
